@@ -7,6 +7,7 @@
    as found.  `body`/`pick` are arbitrary user code / output pickers. *)
 From Verif Require Import Base.Prelude Base.StrOrd Base.Graph Model.Pipe Model.CacheSem Model.CacheSemSpec
   Proofs.CacheSemBase Proofs.CacheSemFacts.
+From Verif Require Model.MapRun Model.MapRunCache Proofs.MapRunCacheFacts.
 
 (* ---------- the property ---------- *)
 (* For every replacement policy (anything `lawful`), every pipeline, every choice of cached functions (the `cached`
@@ -148,7 +149,7 @@ Theorem C09_map_shared_write :
 Proof. exact @gos_write_inv. Qed.
 Print Assumptions C09_map_shared_write.
 
-(* ... hence a sequential map run (for the cache: a sequence of such invocations) computes the uncached results *)
+(* ... hence any sequence of such invocations computes the uncached results *)
 Theorem C09_map_cache_transparent :
   forall body pick (C : Type) (P : policy C) (good : C -> Prop), lawful P good ->
   forall p, wf_pipeline p ->
@@ -159,6 +160,38 @@ Theorem C09_map_cache_transparent :
     /\ cache_inv body pick P good p (snd (map_calls body P calls c)).
 Proof. exact @map_calls_transparent. Qed.
 Print Assumptions C09_map_cache_transparent.
+
+(* ... and for WHOLE map runs: Model/MapRunCache.v is the sequential Pipeline.map of Model/MapRun.v (the model of
+   C01) with the cache threaded through every invocation (_run_iteration / _execute_single -> _get_or_set_cache).
+   For every lawful cache, from every cache whose readable entries are results of the pipeline's functions (in
+   particular an empty one, or the cache left by earlier map runs on the same functions): the run with cache returns
+   EXACTLY what the run without cache returns (arrays as returned and as stored, or the same error), leaves such a
+   cache again, and executes the user functions at most as often as the uncached run calls them. *)
+Theorem C09_map_run_cache_transparent :
+  forall (body : MapRun.mfunc -> MapRun.env -> result (list MapRun.val)) (C : Type)
+         (P : MapRunCache.kvcache MapRunCache.mkey MapRunCache.mval C) (good : C -> Prop),
+    MapRunCache.kv_lawful P good ->
+    forall p : list MapRun.mfunc,
+      (forall f g, In f p -> In g p -> MapRun.fouts f = MapRun.fouts g -> f = g) ->
+      forall inputs user c r c' x,
+        MapRunCacheFacts.kinv body P good p c ->
+        MapRunCache.map_run_c body P p inputs user c = (r, c', x) ->
+        r = MapRun.map_run body p inputs user
+        /\ MapRunCacheFacts.kinv body P good p c'
+        /\ (forall st', r = Ok st' -> x <= MapRun.r_calls st').
+Proof.
+  intros body C P good LAW p DIST inputs user c r c' x Hc H.
+  exact (MapRunCacheFacts.map_run_c_ok body P good LAW p DIST p inputs user c r c' x (fun f Hf => Hf) Hc H).
+Qed.
+Print Assumptions C09_map_run_cache_transparent.
+
+Theorem C09_map_dict_lawful : MapRunCache.kv_lawful MapRunCache.map_simple (fun _ => True).
+Proof. exact MapRunCacheFacts.map_simple_lawful. Qed.
+Print Assumptions C09_map_dict_lawful.
+
+(* the empty dict satisfies the hypothesis *)
+Example C09_map_empty_inv body p : MapRunCacheFacts.kinv body MapRunCache.map_simple (fun _ => True) p [].
+Proof. split; [exact I|]. intros k v H. discriminate. Qed.
 
 (* ---------- the code as found (legacy = true) does NOT have the property: three defects ---------- *)
 Definition fb : pfunc := mkf (s "fb") [s "b"] [(s "a", s "a")] [] [] true.
